@@ -167,11 +167,11 @@ def check_L(part, job):
             # completion: c(l,-m) = (-1)^m conj c(l,m) and equals the complex analysis of the real function
             full = sht.complete_coefficients(e)
             want = ylm.complete(L, e)
-            if np.abs(full - want).max() > 1e-14:
+            if not (np.abs(full - want).max() <= 1e-14):
                 fail("complete", "complete_coefficients of %s*e(%d,%d) violates c(l,-m) = (-1)^m conj c(l,m)" % (ph_name, l, m), {"l": l, "m": m})
             if L >= 1:
                 cc = sht.analysis(f.astype(np.complex128))
-                if np.abs(cc - want).max() > t:
+                if not (np.abs(cc - want).max() <= t):
                     fail("complete-vs-complex", "completed real coefficients differ from the complex analysis of the same real function (%d,%d)" % (l, m), {"l": l, "m": m})
             part.outcome(("r", m > 0, m % 2))
     # ---------------- dense vectors: round trips, linearity, Parseval, power spectrum ---------------------------
@@ -184,49 +184,49 @@ def check_L(part, job):
             a = dense(len(lmc), which)
             fa = sht.synthesis(a)
             back = sht.analysis(fa)
-            if np.abs(back - a).max() > t * 4:
+            if not (np.abs(back - a).max() <= t * 4):
                 fail("roundtrip-cplx", "analysis(synthesis(c)) differs from c by %.3g" % np.abs(back - a).max())
             ref = ylm.synth_complex(L, a, theta, phi) if use_ref and which == 0 else fa
-            if np.abs(ref - fa).max() > t * 20:
+            if not (np.abs(ref - fa).max() <= t * 20):
                 fail("synthesis-dense-cplx", "dense complex synthesis deviates from the reference by %.3g" % np.abs(ref - fa).max())
             f2 = sht.synthesis(back)
-            if np.abs(f2 - fa).max() > t * 20:
+            if not (np.abs(f2 - fa).max() <= t * 20):
                 fail("roundtrip-grid-cplx", "synthesis(analysis(f)) differs from f on the grid")
             # linearity
             b = dense(len(lmc), 1 - which)[::-1].copy()
             fb = sht.synthesis(b)
             lin = sht.analysis((2.5 - 1j) * fa + 0.5j * fb)
-            if np.abs(lin - ((2.5 - 1j) * a + 0.5j * b)).max() > t * 20:
+            if not (np.abs(lin - ((2.5 - 1j) * a + 0.5j * b)).max() <= t * 20):
                 fail("linearity-cplx", "analysis is not linear on a pair of dense fields")
             # Parseval with the independent quadrature
             fq = ylm.synth_complex(L, a, T, P) if use_ref and which == 0 else None
             integral = float(np.sum(np.abs(fq) ** 2 * W)) if fq is not None else float(np.sum(np.abs(a) ** 2))
-            if abs(integral - np.sum(np.abs(a) ** 2)) > 1e-9 * integral:
+            if not (abs(integral - np.sum(np.abs(a) ** 2)) <= 1e-9 * integral):
                 fail("harness-parseval", "reference quadrature disagrees with Parseval (reference problem)")
-            if abs(np.sum(np.abs(back) ** 2) - integral) > 1e-8 * integral:
+            if not (abs(np.sum(np.abs(back) ** 2) - integral) <= 1e-8 * integral):
                 fail("parseval-cplx", "sum |c|^2 = %.12g but integral |f|^2 = %.12g" % (np.sum(np.abs(back) ** 2), integral))
             ps = sht.power_spectrum(a)
             want = np.array([np.mean(np.abs(a[l * l:(l + 1) ** 2]) ** 2) for l in range(L + 1)])
-            if np.shape(ps) != want.shape or np.abs(ps - want).max() > 1e-12 * max(1.0, want.max()):
+            if np.shape(ps) != want.shape or not (np.abs(ps - want).max() <= 1e-12 * max(1.0, want.max())):
                 fail("power-spectrum-cplx", "power_spectrum of a complex-layout vector (%d entries) %s" % (len(a), "has %d values for %d degrees" % (len(ps), L + 1) if np.shape(ps) != want.shape
                                                                                                           else "differs from the per-degree mean of |c|^2"))
         r = dense(len(lmr), which)
         r[: L + 1] = r[: L + 1].real
         fr = sht.synthesis(r)
         back = sht.analysis(fr)
-        if np.abs(back - r).max() > t * 4:
+        if not (np.abs(back - r).max() <= t * 4):
             fail("roundtrip-real", "real analysis(synthesis(c)) differs from c by %.3g" % np.abs(back - r).max())
         ref = ylm.synth_real(L, r, theta, phi) if use_ref and which == 0 else fr
-        if np.abs(ref - fr).max() > t * 20:
+        if not (np.abs(ref - fr).max() <= t * 20):
             fail("synthesis-dense-real", "dense real synthesis deviates from the reference by %.3g" % np.abs(ref - fr).max())
         full = ylm.complete(L, r)
         ps = sht.power_spectrum(r)
         want = np.array([np.mean(np.abs(full[l * l:(l + 1) ** 2]) ** 2) for l in range(L + 1)])
-        if np.shape(ps) != want.shape or np.abs(ps - want).max() > 1e-12 * max(1.0, want.max()):
+        if np.shape(ps) != want.shape or not (np.abs(ps - want).max() <= 1e-12 * max(1.0, want.max())):
             fail("power-spectrum-real", "power_spectrum (real layout) differs from the per-degree mean of |c|^2 of the completed vector")
         fq = ylm.synth_real(L, r, T, P) if use_ref and which == 0 else None
         integral = float(np.sum(fq ** 2 * W)) if fq is not None else float(np.sum(np.abs(full) ** 2))
-        if abs(np.sum(np.abs(full) ** 2) - integral) > 1e-8 * max(integral, 1e-30):
+        if not (abs(np.sum(np.abs(full) ** 2) - integral) <= 1e-8 * max(integral, 1e-30)):
             fail("parseval-real", "sum |c|^2 of the completed vector != integral f^2")
         part.outcome(("dense", which))
     # ---------------- pure python paths and point-wise evaluation --------------------------------------------
@@ -245,29 +245,29 @@ def check_L(part, job):
         for a in vecs_c if L >= 1 else []:
             part.ev(); part.tr(4)
             f1, f2 = sht.synthesis(a), sht.synthesis_pure_python_cplx(a)
-            if np.abs(f1 - f2).max() > t * 10:
+            if not (np.abs(f1 - f2).max() <= t * 10):
                 fail("python-vs-compiled:synthesis-cplx", "pure-Python and compiled complex synthesis differ by %.3g" % np.abs(f1 - f2).max())
             c1, c2 = sht.analysis(f1), sht.analysis_pure_python_cplx(f1)
-            if np.abs(c1 - c2).max() > t * 10:
+            if not (np.abs(c1 - c2).max() <= t * 10):
                 fail("python-vs-compiled:analysis-cplx", "pure-Python and compiled complex analysis differ by %.3g" % np.abs(c1 - c2).max())
             for (th, ph) in (pts if full_basis else pts[:4]):
                 v = sht.evaluate_at_points(a, th, ph)
                 want = complex(ylm.synth_complex(L, a, np.array([th]), np.array([ph]))[0])
-                if abs(v - want) > t * 20:
+                if not (abs(v - want) <= t * 20):
                     fail("evaluate_at_points-cplx:%s" % ("pole" if abs(np.cos(th)) == 1.0 else "generic"), "point-wise evaluation differs from the reference by %.3g at (theta=%.3g, phi=%.2f)" % (abs(v - want), th, ph))
                     break
         for r in vecs_r:
             part.ev(); part.tr(4)
             f1, f2 = sht.synthesis(r), sht.synthesis_pure_python(r)
-            if np.abs(f1 - f2).max() > t * 10:
+            if not (np.abs(f1 - f2).max() <= t * 10):
                 fail("python-vs-compiled:synthesis-real", "pure-Python and compiled real synthesis differ by %.3g" % np.abs(f1 - f2).max())
             c1, c2 = sht.analysis(f1), sht.analysis_pure_python(f1)
-            if np.abs(c1 - c2).max() > t * 10:
+            if not (np.abs(c1 - c2).max() <= t * 10):
                 fail("python-vs-compiled:analysis-real", "pure-Python and compiled real analysis differ by %.3g" % np.abs(c1 - c2).max())
             for (th, ph) in (pts if full_basis else pts[:4]):
                 v = sht.evaluate_at_points(r, th, ph)
                 want = float(ylm.synth_real(L, r, np.array([th]), np.array([ph]))[0])
-                if abs(v - want) > t * 20:
+                if not (abs(v - want) <= t * 20):
                     fail("evaluate_at_points-real:%s" % ("pole" if abs(np.cos(th)) == 1.0 else "generic"), "point-wise evaluation (real) differs from the reference by %.3g at (theta=%.3g, phi=%.2f)" % (abs(v - want), th, ph))
                     break
         part.outcome(("python", L))
@@ -311,7 +311,7 @@ def object_history(part, job):
     # the references themselves are anchored: point-wise values against scipy's harmonics
     for n, (c_, th, ph, real) in {"eval_c(th1,ph1)": (cc, th1, ph1, False), "eval_r(th1,ph1)": (cr, th1, ph1, True)}.items():
         ref = ylm.synth_real(L, c_, np.array([th]), np.array([ph]))[0] if real else ylm.synth_complex(L, c_, np.array([th]), np.array([ph]))[0]
-        if abs(complex(want[n]) - complex(ref)) > tol(L) * 20:
+        if not (abs(complex(want[n]) - complex(ref)) <= tol(L) * 20):
             part.fail("object-history:reference", "fresh-object answer of %s differs from the harmonics reference" % n, {"kind": "objhist", "L": L, "depth": depth})
             return
     # ... and so are the others: analysis returns the coefficients the samples were synthesised from, synthesis the reference
@@ -330,7 +330,7 @@ def object_history(part, job):
     anchors = {"analysis_c": cc, "analysis_r": cr, "synthesis_c": ref_fc, "synthesis_r": ref_fr.real, "synthesis_py_r": ref_fr.real, "power_r": pw_r, "power_c": pw_c}
     for n, ref in anchors.items():
         w = np.asarray(want[n])
-        if w.shape != np.asarray(ref).shape or np.abs(w - ref).max() > tol(L) * 50 * max(1.0, float(np.abs(ref).max())):
+        if w.shape != np.asarray(ref).shape or not (np.abs(w - ref).max() <= tol(L) * 50 * max(1.0, float(np.abs(ref).max()))):
             part.fail("object-history:reference", "fresh-object answer of %s differs from the independent reference" % n, {"kind": "objhist", "L": L, "depth": depth})
             return
     seen = set()
@@ -342,7 +342,7 @@ def object_history(part, job):
             for step, k in enumerate(hist):
                 part.tr()
                 got = calls[names[k]](s)
-                if np.abs(np.asarray(got) - want[names[k]]).max() > tol(L) * 20:
+                if not (np.abs(np.asarray(got) - want[names[k]]).max() <= tol(L) * 20):
                     part.fail("object-history:%s-after-%s" % (names[k].split("(")[0], names[hist[step - 1]].split("(")[0] if step else "construction"),
                               "L=%d: %s on a reused SHT object returns another answer than on a fresh object after the calls %s"
                               % (L, names[k], [names[j] for j in hist[:step]]), {"kind": "objhist", "L": L, "depth": depth})
@@ -381,7 +381,7 @@ def constructor_history(part, job):
             part.fail("ctor-history:grid-size", "SHT(%d, ntheta=%s, nphi=%s) reports a %dx%d grid" % (L, g[0], g[1], s.ntheta, s.nphi), case)
             return
         x, _ = np.polynomial.legendre.leggauss(nt)
-        if len(s.cos_theta) != nt or np.abs(np.sort(np.asarray(s.cos_theta)) - np.sort(x)).max() > 1e-12:
+        if len(s.cos_theta) != nt or not (np.abs(np.sort(np.asarray(s.cos_theta)) - np.sort(x)).max() <= 1e-12):
             part.fail("ctor-history:nodes", "SHT(%d, ntheta=%s, nphi=%s) built after %s does not hold the %d Gauss-Legendre nodes of its own grid"
                       % (L, g[0], g[1], before, nt), case)
             return
@@ -391,7 +391,7 @@ def constructor_history(part, job):
         for nm, got, want in (("analysis (complex)", s.analysis(fc), cc), ("analysis (real)", s.analysis(fr.real), cr),
                               ("synthesis (complex)", s.synthesis(cc), fc), ("synthesis (real)", s.synthesis(cr), fr.real)):
             part.tr()
-            if np.asarray(got).shape != np.asarray(want).shape or np.abs(np.asarray(got) - want).max() > tol(L) * 50:
+            if np.asarray(got).shape != np.asarray(want).shape or not (np.abs(np.asarray(got) - want).max() <= tol(L) * 50):
                 part.fail("ctor-history:%s" % nm.split(" ")[0], "L=%d: %s on the grid (ntheta=%s, nphi=%s) built after %s is not exact (dev %.3g)"
                           % (L, nm, g[0], g[1], before, float(np.abs(np.asarray(got) - want).max()) if np.asarray(got).shape == np.asarray(want).shape else np.inf), case)
                 return
